@@ -288,6 +288,21 @@ def extras():
     res.append(("real-frac", Eq(Const("real_divide", TFun(RealType, RealType, RealType))(Real(1), Real(3)), Real(2))))
     res.append(("of-nat", Eq(Const("of_nat", TFun(NatType, RealType))(x), Real(2))))
     res.append(("of-nat-int", Eq(Const("of_nat", TFun(NatType, IntType))(Const("plus", TFun(NatType, NatType, NatType))(x, Nat(2))), Int(2))))
+    # terms whose numeric type is carried ONLY by polymorphic leaves under operators (the annotation cannot sit on an operator symbol)
+    yv = Var("y", NatType)
+    for T in (IntType, RealType):
+        on = Const("of_nat", TFun(NatType, T))
+        a1, a2 = on(x), on(yv)
+        um = Const("uminus", TFun(T, T))
+        for nm, t in (("uminus", um(a1)), ("uminus2", um(um(a1))), ("plus", Const("plus", TFun(T, T, T))(a1, a2)),
+                      ("times-uminus", Const("times", TFun(T, T, T))(um(a1), a2)), ("minus", Const("minus", TFun(T, T, T))(a1, um(a2))),
+                      ("less", Const("less", TFun(T, T, BoolType))(a1, a2)), ("less-eq-uminus", Const("less_eq", TFun(T, T, BoolType))(um(a1), a2)),
+                      ("eq", Eq(um(a1), a2)), ("eq-plus", Eq(Const("plus", TFun(T, T, T))(a1, a2), um(a2)))):
+            res.append(("poly-leaves-%s-%s" % (nm, T), t if t.get_type() == BoolType else Eq(Var("h", TFun(T, BoolType))(t), Var("h", TFun(T, BoolType))(t))))
+            if t.get_type() != BoolType:
+                res.append(("poly-leaves-bare-%s-%s" % (nm, T), t))
+        if theory.thy.has_term_sig("abs"):
+            res.append(("poly-leaves-abs-%s" % T, Const("abs", TFun(T, T))(um(a1))))
     # if / function update / literals / intervals
     IF = Const("IF", TFun(BoolType, NatType, NatType, NatType))
     res.append(("if-nested", Eq(IF(P(x), IF(P(y), x, y), y), x)))
